@@ -244,3 +244,22 @@ Proof.
   intros o r fuel Hwf Hb Hp Hf. destruct (early_stop_complete o r fuel Hwf Hb Hp Hf) as (b & Hm & Hiff).
   exists b. split; [exact Hm|]. rewrite Hiff. apply visited_rfc. exact Hwf.
 Qed.
+
+(* per component type *)
+Theorem tables_vevent : forall ev r fuel,
+    wf_vevent ev -> tr_bounded r = true -> (match_fuel (OEvent ev) r <= fuel)%nat ->
+    exists b, time_range_match fuel (OEvent ev) r = Some b /\ (b = true <-> rfc_overlaps_vevent ev r).
+Proof. intros ev r fuel Hwf Hb Hf. exact (tables (OEvent ev) r fuel Hwf Hb (fun H => False_ind _ (Bool.diff_false_true H)) Hf). Qed.
+
+Theorem tables_vjournal : forall j r fuel,
+    wf_vjournal j -> tr_bounded r = true -> (match_fuel (OJournal j) r <= fuel)%nat ->
+    exists b, time_range_match fuel (OJournal j) r = Some b /\ (b = true <-> rfc_overlaps_vjournal j r).
+Proof. intros j r fuel Hwf Hb Hf. exact (tables (OJournal j) r fuel Hwf Hb (fun H => False_ind _ (Bool.diff_false_true H)) Hf). Qed.
+
+Theorem tables_vtodo : forall t r fuel,
+    wf_vtodo t -> tr_bounded r = true -> tr_proper r = true -> (match_fuel (OTodo t) r <= fuel)%nat ->
+    exists b, time_range_match fuel (OTodo t) r = Some b /\ (b = true <-> rfc_overlaps_vtodo t r).
+Proof. intros t r fuel Hwf Hb Hp Hf. exact (tables (OTodo t) r fuel Hwf Hb (fun _ => Hp) Hf). Qed.
+
+Lemma unbounded_range : forall o fuel, time_range_match fuel o (None, None) = Some false.
+Proof. reflexivity. Qed.
